@@ -44,14 +44,14 @@ class C13(Prop):
                     self.pda_layer("PDA(2,2,2,<=2)/names:reserved (every 3rd)",
                                    lambda: (c for k, c in enumerate(GP.pda_cases(2, 2, 2, 0, 2)) if k % 3 == 0), adv),
                     self.cfg_layer("CFG(2,2,2,<=3)", lambda: GC.cfg_cases(2, 2, 2, 0, 3),
-                                   ["natural@plain", "1@plain", "natural@pda", "1@pda", "2@pda", "3@pda"])]
+                                   ["natural@plain", "1@plain", "natural@pda", "1@pda", "2@pda", "3@pda", "natural@mixedval"])]
         return [self.pda_layer("PDA(2,2,2,<=2)", lambda: GP.pda_cases(2, 2, 2, 0, 2), pl + ["3@plain", "s%d@plain" % seed], rep=None),
                 self.pda_layer("PDA(1,2,2,<=4)", lambda: GP.pda_cases(1, 2, 2, 3, 4), pl[:2]),
                 self.pda_layer("PDA(2,2,2,3) every 5th", lambda: (c for k, c in enumerate(GP.pda_cases(2, 2, 2, 3, 3)) if k % 5 == 0), pl[:2]),
                 self.pda_layer("PDA(2,2,3,<=2)", lambda: GP.pda_cases(2, 2, 3, 0, 2), pl[:2]),
                 self.pda_layer("PDA(3,1,2,<=3)", lambda: GP.pda_cases(3, 1, 2, 0, 3), pl[:2], rep=None),
                 self.pda_layer("PDA(2,2,2,<=2)/names:reserved", lambda: GP.pda_cases(2, 2, 2, 0, 2), adv),
-                self.cfg_layer("CFG(2,2,2,<=3)", lambda: GC.cfg_cases(2, 2, 2, 0, 3), ["natural@plain", "1@plain", "2@pda", "3@pda"]),
+                self.cfg_layer("CFG(2,2,2,<=3)", lambda: GC.cfg_cases(2, 2, 2, 0, 3), ["natural@plain", "1@plain", "2@pda", "3@pda", "natural@mixedval", "1@mixedval"]),
                 self.cfg_layer("CFG(2,2,3,<=2)", lambda: GC.cfg_cases(2, 2, 3, 0, 2), ["natural@plain", "2@pda"])]
 
     N = {"quick": 3, "thorough": 4}
@@ -91,7 +91,7 @@ class C13(Prop):
         scheme = ctx.variant or "plain"
         n = ref["n"]
         if case[0] == "cfg":
-            g = ctx.call(O.build_cfg, case[1], scheme if scheme == "pda" else "plain", "full")
+            g = ctx.call(O.build_cfg, case[1], scheme if scheme in ("pda", "mixedval") else "plain", "full")
             if not ctx.returns(g, "C13.build"):
                 return
             p = ctx.call(g.value.to_pda)
